@@ -24,6 +24,7 @@ ASSUMPTIONS = ["malloc/free/mmap/munmap behave as specified"]
 RULES_DOC = dict(common.SHARED_DOC)
 RULES_DOC["X4"] = common.X4_DOC
 RULES_DOC["R5"] = "page release: when the pool is destroyed, every undo of the stack guard (protect_memory(.., FALSE)) covers exactly the region that is then released (same address and size as the ABTU_free_largepage that follows); the size recorded with a user-supplied stack is the size the caller passed, unrounded"
+RULES_DOC["R6"] = "every local memory pool is initialised against the global pool of its own kind (descriptor pools feed on the descriptor pool, stack pools on the stack pool); ABT_thread_create_many reaches a creation only with no attribute or with an attribute whose user stack was tested NULL (one user stack is never given to several ULTs)"
 RULES_DOC.update({
     "R1": "provenance pairing: flag family = allocator family; free arm = inverse deallocator, exactly once; freed pointer term = allocated pointer term",
     "R2": "sync LIFO: CAS/store expects the pointer+tag loaded in the same iteration and installs tag+1",
@@ -758,6 +759,49 @@ def rule_R5(P, rep):
            "stores %s (a user-supplied stack of that many bytes ends before the recorded top)" % vals, loc=A.file, site="attr_set_stack/size")
 
 
+def rule_R6(P, rep):
+    def kind(F, a):
+        fo = F.field_of(a)
+        if not fo:
+            return None
+        return "stack" if "stack" in fo[1] else ("desc" if "desc" in fo[1] else fo[1])
+    n = 0
+    for F in sorted(P.functions.values(), key=lambda f: (f.file, f.line)):
+        for _b, i in F.calls("ABTI_mem_pool_init_local_pool"):
+            a = F.nodes[i]["a"]
+            k0, k1 = kind(F, a[0]), kind(F, a[1])
+            n += 1
+            rep.ob("R6", "%s: local pool %s is fed by the global pool of the same kind" % (F.name, canon.expr(F, a[0])),
+                   k0 is not None and k0 == k1, "local pool %s initialised against %s" % (canon.expr(F, a[0]), canon.expr(F, a[1])),
+                   loc=F.loc(i), site="%s/pool-pair/%s" % (F.name, canon.expr(F, a[0])))
+    if P.variant != "no_mem_pool":
+        rep.need(n >= 2, "only %d local pool initialisations" % n)
+    # create_many: a user-supplied stack cannot be shared by the units of one batch
+    C = P.fn("ABT_thread_create_many", "src/thread.c")
+    ap = [p["n"] for p in C.params if p["t"].replace(" ", "") == "ABT_thread_attr"]
+    rep.need(len(ap) == 1, "ABT_thread_create_many: attribute parameter not found")
+
+    def conds(t):
+        if t in ("%s == %s" % (ap[0], v) for v in ("0", "(void *)0")) or re.match(r"^%s == \d+$" % re.escape(ap[0]), t) or t == ap[0]:
+            return ("attr", False) if t == ap[0] else "attr-null"
+        if t == "ABTI_thread_attr::p_stack":
+            return ("stack-null", True)
+        return None
+    sel = seq.Sel(calls={"ythread_create"}, conds=conds, canon=True, locks=False)
+    m = 0
+    for toks, kind_, rv, rtxt in seq.sequences(C, sel, max_repeat=1, max_len=40):
+        cs = [j for j, t in enumerate(toks) if t[0] == "call"]
+        if not cs:
+            continue
+        m += 1
+        pre = [t for t in toks[:cs[0]] if t[0] == "if"]
+        ok = any((t[1] in ("attr-null",) and t[2]) or (t[1] == "stack-null" and t[2]) for t in pre)
+        rep.ob("R6", "create_many creates units only without an attribute or after testing that it carries no user stack", ok,
+               "a creation is reached with an attribute whose p_stack was not tested: %s" % show(toks)[:160],
+               loc="%s:%d" % (C.file, C.line), site="create_many/user-stack/%s" % show(pre)[:80])
+    rep.need(m >= 2, "ABT_thread_create_many: %d creating paths" % m)
+
+
 def run(P, rep, tier):
     common.rule_X4(P, rep)
     common.run_shared(P, rep, which=("X1", "X2"))
@@ -766,3 +810,4 @@ def run(P, rep, tier):
     rule_R3(P, rep)
     rule_R4(P, rep)
     rule_R5(P, rep)
+    rule_R6(P, rep)
